@@ -6,7 +6,7 @@
    UnmarshalCaddyfile over Caddy's token stream (model/Caddyfile.v, model/CaddyfileLeaves.v);
    Caddy's lexer, Dispenser cursor and module loader are not modelled, "loads and provisions" is
    checked by the engine only.  Leaf equations are proved for every modelled module
-   ([mleaf_proved] = [mleaf_ok], [hleaf_proved] = [hleaf_ok]); tls/http/quic matchers and the tls
+   ([mleaf_proved] = [mleaf_ok], [hleaf_proved] = [hleaf_ok]); the http matcher and the tls
    handler are not modelled (engine oracle only). *)
 From Coq Require Import List ZArith NArith Bool String.
 From L4.model Require Import Caddyfile CaddyfileLeaves.
